@@ -82,8 +82,8 @@ Definition close_all (cf : cfg) (s : st) : option st :=
   let n := length (idle s) in
   match step cf s (LCleanIdle n) with
   | Some s1 =>
-      let cs := scratch s1 in
-      run_labels cf s1 (map LClose cs ++ map LCloseFin cs)
+      let cs := idle s in    (* its own copy; another CloseIdleConnections call may be in progress with its own *)
+      run_labels cf s1 (flat_map (fun c => [LClose c; LCloseFin c]) cs)
   | None => None
   end.
 
